@@ -62,19 +62,22 @@ def _methods(role, sub, op, compiled):
     return "".join(out)
 
 
-def binop_source(op, compiled, depth3=False, cs=range(8)):
-    """Source of the class family for one operator."""
+REDUCED = {"cs": (1, 2, 3, 7), "ss": (0, 1, 2, 3, 6), "ds": (0, 1, 2, 3)}
+
+
+def binop_source(op, compiled, depth3=False, cs=range(8), ss=range(8), ds=range(8)):
+    """Source of the class family for one operator (cs / ss / ds: which subsets C, S and D range over)."""
     kw = "cdef class" if compiled else "class"
     name, sym = OPD[op][0], OPD[op][1]
     src = [_HEAD]
     for c in cs:
         src.append("%s C%d:\n%s\n" % (kw, c, _methods("C", c, op, compiled)))
-        for s in range(8):
+        for s in ss:
             src.append("%s S%d_%d(C%d):\n%s\n" % (kw, c, s, c, _methods("S", s, op, compiled)))
             if depth3:
                 for t in range(8):
                     src.append("%s T%d_%d_%d(S%d_%d):\n%s\n" % (kw, c, s, t, c, s, _methods("T", t, op, compiled)))
-    for d in range(8):
+    for d in ds:
         src.append("%s D%d:\n%s\n" % (kw, d, _methods("D", d, op, compiled)))
     src.append("def do_bin(x, y):\n    return x %s y\n\ndef do_inp(x, y):\n    x %s= y\n    return x\n" % (sym, sym))
     return "".join(src)
